@@ -21,4 +21,13 @@ def call (kernel : List Rat) (default : Option Int) (x : Int) : Rat :=
     | none => x
   if 0 ≤ i ∧ i < n then getV kernel i.toNat else 0
 
+/-- `CategoricalCalibration.call` for all units of one example: `kernels[u]` is unit `u`'s kernel column,
+`xs` the example's input row — ONE category (broadcast to every unit by `one_hot(inputs, axis=1) *
+kernel`) or one per unit; any other number of columns cannot be broadcast against the kernel
+(`InvalidArgumentError`). -/
+def callUnits (kernels : List (List Rat)) (default : Option Int) (xs : List Int) : Except Err (List Rat) :=
+  if xs.length ≠ 1 ∧ xs.length ≠ kernels.length then .error .invalidArgument
+  else .ok ((List.range kernels.length).map (fun u =>
+    call (kernels.getD u []) default (xs.getD (if xs.length = 1 then 0 else u) 0)))
+
 end Tfl.Categorical
